@@ -414,7 +414,7 @@ func c07ContentTypes() []c07Req {
 }
 
 func c07Jobs(tier string) []string {
-	jobs := []string{"ctypes", "multipart", "json:1", "json:2", "json:3", "json:4", "json:5", "rawshort"}
+	jobs := []string{"ctypes", "batches", "multipart", "json:1", "json:2", "json:3", "json:4", "json:5", "rawshort"}
 	for _, a := range c07Alphabet {
 		for _, b := range c07Alphabet {
 			jobs = append(jobs, "raw5:"+a+b)
@@ -441,7 +441,7 @@ func c07Jobs(tier string) []string {
 	return jobs
 }
 
-func c07Check(status int, body []byte, exp int, batchBody bool) []string {
+func c07Check(status int, body []byte, exp int, batchBody bool, reqBody []byte) []string {
 	set := map[string]bool{}
 	if status != 200 && status != 422 {
 		set[fmt.Sprintf("status %d (only 200 and 422 are allowed)", status)] = true
@@ -470,6 +470,12 @@ func c07Check(status int, body []byte, exp int, batchBody bool) []string {
 			for _, e := range x {
 				check(e)
 			}
+			if batchBody {
+				var in []interface{}
+				if json.Unmarshal(reqBody, &in) == nil && len(in) != len(x) {
+					set["batch answered with a different number of results"] = true
+				}
+			}
 		default:
 			check(x)
 		}
@@ -487,7 +493,7 @@ func init() {
 		ID:    "C07",
 		Level: "exploration",
 		Rule: "grammars enumerated exhaustively: (raw) every string of length <=5 (thorough <=6) over the alphabet [ ] { } \" : , space a 1 n as application/json body; (json) every JSON tree with <=5 (6) nodes over " +
-			"{null,true,1,\"\",valid query,invalid query,[],{}} with object keys {query,variables,operationName,x}; (ctypes) content types; (multipart) operations single/batch x maps with <=2 files x <=2 paths over a 22-path alphabet, " +
+			"{null,true,1,\"\",valid query,invalid query,[],{}} with object keys {query,variables,operationName,x}; (ctypes) content types; (batches) every batch of length <=3 over {valid, invalid, introspection, ambiguous document, mutation}; (multipart) operations single/batch x maps with <=2 files x <=2 paths over a 22-path alphabet, " +
 			"missing file parts, malformed map/operations; (corner) every valid operation with <=3 fields on corner-case schemas; oracle: process alive, handler returned, JSON body with data and/or errors, status in {200,422} " +
 			"with a three-valued reference (must-422 / must-200 / either), and a canonical follow-up request still answered correctly; non-trivial = the request reached decoding",
 		Assumptions: []string{"POST only (other methods are routed elsewhere by Handler)", "grey zone (either status): duplicate or case-variant keys, case-variant media types, duplicate map paths",
@@ -522,6 +528,27 @@ func init() {
 				reqs = c07ContentTypes()
 			case job == "multipart":
 				reqs = c07Multipart()
+			case job == "batches":
+				// every batch of length <=3 over five kinds of element
+				elems := []string{c07ValidQ, c07InvalidQ, "{ __schema { queryType { name } } }", "query A { echo } query B { echo }", "mutation { incr(by: 1) }"}
+				var rec func(cur []string)
+				rec = func(cur []string) {
+					if len(cur) > 0 {
+						var l []interface{}
+						for _, q := range cur {
+							l = append(l, map[string]interface{}{"query": q})
+						}
+						b, _ := json.Marshal(l)
+						reqs = append(reqs, c07Req{Method: "POST", ContentType: "application/json", Body: string(b), Expect: 200, Kind: "batch"})
+					}
+					if len(cur) == 3 {
+						return
+					}
+					for _, e := range elems {
+						rec(append(append([]string{}, cur...), e))
+					}
+				}
+				rec(nil)
 			case strings.HasPrefix(job, "json:"):
 				n, _ := strconv.Atoi(job[5:])
 				for _, t := range jsonTrees(n, map[int][]string{}) {
@@ -575,8 +602,8 @@ func init() {
 				}
 				rr := httptest.NewRecorder()
 				f.GW.Handler(rr, r)
-				sigs := c07Check(rr.Code, rr.Body.Bytes(), rq.Expect, false)
-				if rq.Expect == 200 && rr.Code == 200 && strings.Contains(rq.Body, c07InvalidQ) && !strings.Contains(rq.Body, c07ValidQ) {
+				sigs := c07Check(rr.Code, rr.Body.Bytes(), rq.Expect, rq.Kind == "batch", []byte(rq.Body))
+				if rq.Kind != "batch" && rq.Expect == 200 && rr.Code == 200 && strings.Contains(rq.Body, c07InvalidQ) && !strings.Contains(rq.Body, c07ValidQ) {
 					// invalid operation: errors and data null
 					var m interface{}
 					json.Unmarshal(rr.Body.Bytes(), &m)
@@ -651,7 +678,7 @@ func c07Corner(tier, job string, from int, em *Emitter) {
 		}
 		f.Fakes.Reset()
 		status, body := f.Post(caseBody(c), "application/json")
-		if sigs := c07Check(status, body, 200, false); len(sigs) > 0 {
+		if sigs := c07Check(status, body, 200, false, nil); len(sigs) > 0 {
 			em.Fail(atoms, sigs, rp)
 		}
 		em.Done(true)
